@@ -90,11 +90,14 @@ theorem components_disjoint {n : Nat} {all g h : W} (hg : IsComp n all g) (hh : 
     (hgj : g.getLsbD j = true) (hhj : h.getLsbD j = true) : g = h :=
   hg.eq_of_common hh hgj hhj
 
-/-- `analyze` cannot hang on a board of size 3..8 with its bitboards on the board -/
-theorem analyze_isSome (p : Pos) (hn : 3 ≤ p.cfg.size ∧ p.cfg.size ≤ 8)
-    (hc : p.c = Gen.precompute p.cfg.size) (hw : Sub p.white p.c.Mask) (hb : Sub p.black p.c.Mask) :
-    p.analyze.isSome = true :=
-  Roads.analyze_isSome p hn hc hw hb
+/-- `FloodGroups` and therefore `analyze()` stay within the model's fuel for **every** position and
+**any** constants (each round clears the lowest set bit, each `Flood` has `seed ⊆ within`): the
+model's `hang "analyze"` outcome is unreachable. -/
+theorem floodGroups_isSome (c : Consts) (bits : W) : (floodGroups c bits).isSome = true :=
+  Roads.floodGroups_isSome c bits
+
+theorem analyze_ne_none (p : Pos) : p.analyze ≠ none :=
+  Roads.analyze_ne_none p
 
 /-! ## 4. roads -/
 
